@@ -67,32 +67,54 @@ check_clock_gate(struct trace *trace)
 {
 	/* 1 hour in nanoseconds */
 	int64_t maxgate = 3600LL * 1000LL * 1000LL * 1000LL;
-	int64_t t0 = 0LL;
-	int first = 1;
 	int ret = 0;
 
-	struct stream *stream;
-	DL_FOREACH(trace->streams, stream) {
-		if (!stream->active)
+	/* The gate detects clocks of different looms that were not
+	 * synchronized. The streams of one loom share its clock, and a thread
+	 * may well start hours after the first one, so only the earliest
+	 * stream of every loom takes part. The loom is the first component of
+	 * the stream path. */
+	struct stream *a;
+	DL_FOREACH(trace->streams, a) {
+		if (!a->active)
 			continue;
 
-		struct ovni_ev *oev = stream_ev(stream);
-		int64_t sclock = stream_evclock(stream, oev);
+		size_t na = strcspn(a->relpath, "/");
 
-		if (first) {
-			first = 0;
-			t0 = sclock;
+		int64_t ca = stream_evclock(a, stream_ev(a));
+		int earliest = 1;
+		struct stream *b;
+		DL_FOREACH(trace->streams, b) {
+			if (!b->active || b == a)
+				continue;
+			if (strncmp(a->relpath, b->relpath, na) != 0
+					|| (b->relpath[na] != '/' && b->relpath[na] != '\0'))
+				continue;
+			if (stream_evclock(b, stream_ev(b)) < ca)
+				earliest = 0;
 		}
 
-		/* Compute the distance without overflowing */
-		uint64_t udelta = t0 > sclock
-			? (uint64_t) t0 - (uint64_t) sclock
-			: (uint64_t) sclock - (uint64_t) t0;
-		if (udelta > (uint64_t) maxgate) {
-			double hdelta = ((double) udelta) / (3600.0 * 1e9);
-			err("stream %s has starting clock too far: delta=%.2f h",
-					stream->relpath, hdelta);
-			ret = -1;
+		if (!earliest)
+			continue;
+
+		/* Compare with the earliest stream of the other hosts */
+		DL_FOREACH(trace->streams, b) {
+			if (!b->active || b == a)
+				continue;
+
+			int64_t cb = stream_evclock(b, stream_ev(b));
+
+			/* Compute the distance without overflowing */
+			uint64_t udelta = ca > cb
+				? (uint64_t) ca - (uint64_t) cb
+				: (uint64_t) cb - (uint64_t) ca;
+			if (cb < ca && udelta > (uint64_t) maxgate) {
+				double hdelta = ((double) udelta) / (3600.0 * 1e9);
+				err("stream %s has starting clock too far: delta=%.2f h",
+						a->relpath, hdelta);
+				ret = -1;
+				break;
+			}
 		}
 	}
 
